@@ -267,10 +267,16 @@ func (fr *Frame) inline(st *State, pc Term, callee *ssa.Function, args []Val, bi
 	sub.run(st, pc)
 	e.callStack = e.callStack[:len(e.callStack)-1]
 	e.depth--
-	rets, rst, _ := sub.mergedReturn()
+	rets, rst, retPC := sub.mergedReturn()
 	if rst == nil {
-		// callee never returns normally (always panics): path ends; give unconstrained result
+		// callee never returns normally (it exits or panics on every path): the caller's path ends here
+		fr.noReturn = true
 		return e.freshVal(st, "noret", callee.Signature.Results(), "call", pc), true
+	}
+	if sub.sawNoReturn {
+		// some callee paths end the process (os.Exit): continue only under the condition of a normal return
+		fr.pcNarrow = e.name("retpc", retPC)
+		fr.sawNoReturn = true
 	}
 	// adopt callee's final state
 	st.mem = rst.mem
@@ -362,6 +368,45 @@ func (fr *Frame) applyContracts(st *State, pc Term, parts []conPart, resT types.
 				st.mem[target.R] = c
 			}
 		}
+	}
+	// callees that end the process: the call site becomes an exit point described by the callee's
+	// ensures_exit clauses
+	for pi, part := range parts {
+		if !part.con.NoReturn || e.world == nil {
+			continue
+		}
+		pre := map[string]Val{}
+		for k, v := range olds[pi] {
+			pre[k] = v
+		}
+		for _, w := range worldVars {
+			pre[w.name] = st.cell[e.world[w.name]]
+		}
+		xst := st.clone()
+		for _, w := range worldVars {
+			c := e.fresh("wx_"+w.name, w.sort)
+			xst.cell[e.world[w.name]] = termVal(c)
+		}
+		code := e.fresh("exitcode", SInt)
+		xenv := &SpecEnv{e: e, st: xst, vars: map[string]Val{"exit": termVal(code)}, old: pre}
+		for k, v := range olds[pi] {
+			xenv.vars[k] = v
+		}
+		for i, c := range part.con.EnsuresExit {
+			g, err := e.evalClause(c.Text, xenv)
+			if err != nil {
+				if strings.Contains(err.Error(), "unknown identifier") {
+					// the clause speaks about the callee's locals: not usable at the call site (dropped: fewer assumptions)
+					continue
+				}
+				e.fail("%s: ensures_exit %d of %s: %v", fr.key, i, part.key, err)
+				continue
+			}
+			e.assume(Implies(pc, g))
+		}
+		e.exits = append(e.exits, exitPoint{pc: pc, code: code, st: xst, pos: pos, block: e.curBlock, nAssume: len(e.assumes), nDecl: len(e.decls)})
+		fr.noReturn = true
+		return e.freshVal(st, "noret", resT, "fresh", pc)
 	}
 	resLabel := "fresh"
 	isFresh := false
@@ -599,6 +644,44 @@ func (fr *Frame) external(st *State, pc Term, callee *ssa.Function, args []Val, 
 	}
 	e.externals[name] = true
 	switch name {
+	case "os.Exit":
+		if e.world != nil {
+			e.exits = append(e.exits, exitPoint{pc: pc, code: e.toTerm(st, args[0]), st: st.clone(), pos: pos, block: e.curBlock, nAssume: len(e.assumes), nDecl: len(e.decls)})
+		}
+		// execution does not continue past os.Exit
+		fr.noReturn = true
+		return Val{K: vNone}
+	case "fmt.Print", "fmt.Println", "fmt.Printf":
+		if e.world != nil {
+			printed := e.fresh("printed", SString)
+			if name != "fmt.Printf" && len(args) == 1 && args[0].K == vSlice {
+				a0 := e.p.U.SIndex(e.toTerm(st, args[0]), IntLit(0))
+				txt := App(SString, "astr", a0)
+				if name == "fmt.Println" {
+					txt = App(SString, "str.++", txt, StrLit("\n"))
+				}
+				e.assume(Implies(And(Eq(args[0].Len, IntLit(1)), App(SBool, "(_ is a_str)", a0)), Eq(printed, txt)))
+			}
+			e.worldSet(st, "stdout", App(SString, "str.++", e.worldGet(st, "stdout"), printed))
+		}
+		return e.freshVal(st, "print", resT, "fresh", pc)
+	case "log.Printf", "log.Print", "log.Println", "log.Fatal", "log.Fatalf":
+		if e.world != nil {
+			e.worldSet(st, "stderrLines", Arith("+", e.worldGet(st, "stderrLines"), IntLit(1)))
+		}
+		return Val{K: vNone}
+	case "io/ioutil.WriteFile", "os.WriteFile":
+		errc := e.fresh("werr", SErr)
+		if e.world != nil {
+			e.worldSet(st, "fileWritten", True)
+			e.worldSet(st, "fileName", e.toTerm(st, args[0]))
+			data := e.toTerm(st, args[1])
+			e.declareFun("string_of_bytes_"+string(data.Sort), []Sort{data.Sort}, SString)
+			content := App(SString, "string_of_bytes_"+string(data.Sort), data)
+			e.worldSet(st, "fileData", content)
+			e.worldSet(st, "writeErr", errc)
+		}
+		return termVal(errc)
 	case "fmt.Errorf", "errors.New":
 		c := e.fresh("err", SInt)
 		return termVal(App(SErr, "e_mk", c))
@@ -625,6 +708,12 @@ func (fr *Frame) external(st *State, pc Term, callee *ssa.Function, args []Val, 
 			e.lcsArgs[t.S] = []Term{e.toTerm(st, args[0]), e.toTerm(st, args[1])}
 		}
 		return termVal(t)
+	case "github.com/josephburnett/jd/v2.SetKeys":
+		if args[0].K == vSlice {
+			return termVal(App(SOpt, "o_setkeys", e.asSort(e.toTerm(st, args[0]), "SliceString")))
+		}
+	case "github.com/josephburnett/jd/v2.Precision":
+		return termVal(App(SOpt, "o_precision", e.toTerm(st, args[0])))
 	case "math.Abs":
 		x := e.toTerm(st, args[0])
 		return termVal(Ite(Cmp("<", x, realLit(0)), Term{"(- " + x.S + ")", SReal}, x))
